@@ -37,6 +37,10 @@ import (
 
 var errVfC03Closed = errors.New("c03: closed")
 
+// vfC03SocketError as the source address of a scripted packet makes ReadFrom fail instead (the
+// outbound socket reports an error: the session's receive loop closes the session).
+const vfC03SocketError = "\x00socket-error"
+
 type vfC03Write struct {
 	data []byte
 	addr string
@@ -62,6 +66,9 @@ func (c *vfC03Conn) ReadFrom(b []byte) (int, string, error) {
 	}
 	select {
 	case p := <-c.in:
+		if p.addr == vfC03SocketError {
+			return 0, "", errors.New("c03: remote socket error")
+		}
 		return copy(b, p.data), p.addr, nil
 	case <-c.closed:
 		return 0, "", errVfC03Closed
@@ -97,8 +104,10 @@ type vfC03IO struct {
 	mu       sync.Mutex
 	hasLimit bool
 	limit    int64
+	failSend bool
 	sent     [][]byte
-	conns    map[string]*vfC03Conn // by dialled address
+	conns    map[string]*vfC03Conn // by dialled address (latest)
+	all      []*vfC03Conn          // every socket ever opened
 	news     int
 	closes   int
 }
@@ -145,6 +154,9 @@ func (io *vfC03IO) SendMessage(buf []byte, msg *protocol.UDPMessage) error {
 	}
 	io.mu.Lock()
 	defer io.mu.Unlock()
+	if io.failSend {
+		return errors.New("c03: connection is going away") // not a DatagramTooLargeError: the reply loop closes the session
+	}
 	if io.hasLimit && int64(msgN) > io.limit {
 		return &quic.DatagramTooLargeError{MaxDatagramPayloadSize: io.limit}
 	}
@@ -177,6 +189,7 @@ func (io *vfC03IO) UDP(reqAddr string) (UDPConn, error) {
 	c := &vfC03Conn{dialAddr: reqAddr, in: make(chan vfC03Write), entered: make(chan struct{}), closed: make(chan struct{})}
 	io.mu.Lock()
 	io.conns[reqAddr] = c
+	io.all = append(io.all, c)
 	io.mu.Unlock()
 	return c, nil
 }
@@ -186,6 +199,30 @@ func (io *vfC03IO) CheckUDP(reqAddr string) error {
 		return errors.New("c03: acl refused")
 	}
 	return nil
+}
+
+// delivered reports whether some outbound socket of this IO was handed exactly (payload, addr).
+func (io *vfC03IO) delivered(payload []byte, addr string) bool {
+	io.mu.Lock()
+	conns := append([]*vfC03Conn(nil), io.all...)
+	io.mu.Unlock()
+	for _, c := range conns {
+		c.mu.Lock()
+		for i := len(c.writes) - 1; i >= 0; i-- {
+			if c.writes[i].addr == addr && bytes.Equal(c.writes[i].data, payload) {
+				c.mu.Unlock()
+				return true
+			}
+		}
+		c.mu.Unlock()
+	}
+	return false
+}
+
+func (io *vfC03IO) closeCount() int {
+	io.mu.Lock()
+	defer io.mu.Unlock()
+	return io.closes
 }
 
 func (io *vfC03IO) conn(addr string) *vfC03Conn {
